@@ -8,8 +8,6 @@ import (
 	"regexp"
 	"sort"
 	"strings"
-
-	"golang.org/x/tools/go/ssa"
 )
 
 var parseAnchors = map[string]string{ // grammar nonterminal → parser function
@@ -311,25 +309,7 @@ func (pi *parserInfo) terminalToken(term string) (string, bool) {
 			return "PRINT", true
 		}
 		if pi.tokOf == nil {
-			pi.tokOf = map[string]string{}
-			names := pi.p.tokenNames()
-			if pk := pi.p.Pkg("lexer"); pk != nil && pk.Func("init") != nil {
-				instrsOf(pk.Func("init"), func(in ssa.Instruction) {
-					mu, ok := in.(*ssa.MapUpdate)
-					if !ok {
-						return
-					}
-					k, ok1 := mu.Key.(*ssa.Const)
-					v, ok2 := constInt(mu.Value)
-					if ok1 && ok2 && k.Value != nil {
-						s := strings.Trim(k.Value.ExactString(), `"`)
-						if uq, err := unquoteGo(k.Value.ExactString()); err == nil {
-							s = uq
-						}
-						pi.tokOf[nfc(s)] = names[v]
-					}
-				})
-			}
+			pi.tokOf = pi.p.KeywordTable()
 		}
 		if t, ok := pi.tokOf[nfc(text)]; ok {
 			return t, true
